@@ -20,6 +20,15 @@ THEOREMS = ['GV.C09.' + t for t in (
     'ellipse_circle_encloses', 'ring_circle_encloses', 'circle_circle_encloses', 'box_circle_partial',
     'welzl_support', 'welzl_eq_spec_of_lemma', 'welzl_seed_independent_of_lemma', 'welzl_encloses_of_lemma')]
 
+# second tie: `bounds` / `circumscribing_rectangle` translated from the source text on every run (unit SrcBounds)
+SRC_THEOREMS = ['GV.C09Src.' + t for t in (
+    'boxBounds_eq', 'pointBounds_eq', 'pointBounds_bbox', 'polygonBounds_eq', 'lineBounds_eq', 'multiBounds_eq',
+    'collBounds_eq', 'polyLikeRect_eq', 'lineLikeRect_eq', 'lineRect_eq', 'boxRect_eq',
+    'polygonBounds_is_bbox', 'polygonBounds_ok',
+    'src_polygon_bounds_enclose', 'src_polygon_bounds_attained', 'src_line_bounds_enclose', 'src_box_bounds_def',
+    'src_multi_bounds_contains', 'src_coll_bounds_contains', 'src_multi_bounds_eq_bbox_join', 'src_rect_has_bounds',
+    'src_lineRect_consistent')]
+
 T0 = datetime(2020, 1, 1, tzinfo=timezone.utc)
 KEY_BOX = 'GeoBox.circumscribing_circle/vertex-outside'
 
@@ -595,6 +604,7 @@ def spec_derived(_line):
 
 def check(run):
     run.prove(MODULE, THEOREMS)
+    run.source_tie(['SrcBounds'], 'GeoVerif.Props.C09Src', SRC_THEOREMS)
     rng = run.rng
     kinds = {}
 
